@@ -116,7 +116,13 @@ def run(rep, tier):
     nparam = len([x for x in recs if x["e"] == "Param"])
     if not rep.violations and (nobj < 100 or nparam < 250):
         raise CheckError("factory sweep too small: %d objects, %d parameters" % (nobj, nparam))
-    rep.add(traces_validated_against_impl=accepted, factory_objects=nobj, factory_parameters=nparam)
+    kinds = {}
+    for x in recs:
+        kinds[x["e"]] = kinds.get(x["e"], 0) + 1
+    probes = len([x for x in recs if x["e"] == "Clone" and x.get("probe", 0) > 0])
+    if not rep.violations and (kinds.get("Construct", 0) < 1000 or kinds.get("AssignStr", 0) < 100 or kinds.get("Config", 0) < 5 or probes < 100):
+        raise CheckError("factory sweep: driver-owned cases missing (%s, %d behaviour probes)" % (kinds, probes))
+    rep.add(traces_validated_against_impl=accepted, factory_objects=nobj, factory_parameters=nparam, sweep_records=kinds, behaviour_probes=probes)
     rep.sample({"sweep": [x for x in recs[:9]]})
 
 
